@@ -198,6 +198,8 @@ def rule_report(rep):
             err = returns_err_variant(node["then"], v)
             if err is None:
                 continue
+            if any(y is not node and y.get("k") == "if" and returns_err_variant(y["then"], v) is not None for y in walk(node["then"])):
+                continue        # an enclosing `if mask[chan] { .. }`: the test that returns the error is the inner one
             order.append(v)
             seen[v] = True
             key = "validate_buffers/" + v
@@ -206,11 +208,7 @@ def rule_report(rep):
             if c.get("k") != "bin":
                 rep.ob(R, key, False, "guard is not a comparison: %s" % show(c), where)
                 continue
-            # inline simple lets in scope (actual_len = x.as_ref().len())
             env = {}
-            for s in earlier_stmts(chain):
-                if s["k"] == "let" and s["pat"]["k"] == "pident" and s.get("init") is not None:
-                    env[s["pat"]["name"]] = ir.subst(s["init"], env)
             # loop pattern shadowing: `for (chan, wave_in) in wave_in.iter()...` : element of the outer param
             shadow = {}
             for cn in ctrl:
@@ -220,6 +218,17 @@ def rule_report(rep):
                         for r, pname in role.items():
                             if nm == pname and mentions_path(cn["iter"], pname):
                                 shadow[nm] = r
+                    # a loop element with its own name (`for (chan, chan_in) in wave_in.iter().enumerate()`) is an element of that parameter
+                    if cn["pat"].get("k") == "ptuple" and len(cn["pat"]["elems"]) == 2 and cn["pat"]["elems"][1].get("k") == "pident":
+                        base_ = cn["iter"]
+                        while base_.get("k") == "mcall":
+                            base_ = base_["recv"]
+                        if is_path(base_) and base_["p"] in role.values():
+                            env[cn["pat"]["elems"][1]["name"]] = ir.N("index", e=base_, i=ir.path(cn["pat"]["elems"][0].get("name", "_")), ln=0)
+            # inline simple lets in scope (actual_len = x.as_ref().len())
+            for s in earlier_stmts(chain):
+                if s["k"] == "let" and s["pat"]["k"] == "pident" and s.get("init") is not None:
+                    env[s["pat"]["name"]] = ir.subst(s["init"], env)
             cl, cr = ir.subst(c["l"], env), ir.subst(c["r"], env)
             fields = {f[0]: ir.subst(f[1], env) for f in err.get("fields", [])} if err.get("k") == "struct" else {}
             exp, act = fields.get("expected"), fields.get("actual")
@@ -258,7 +267,7 @@ def rule_report(rep):
         which = "input" if is_path(base, wave_in) else "output" if is_path(base, wave_out) else None
         if which is None:
             continue
-        full = g["methods"] in (["iter", "enumerate", "filter"], ["iter_mut", "enumerate", "filter"]) and g["guard"] == "filter-mask" and nbit(g.get("mask_expr")) == mask
+        full = [m_ for m_ in g["methods"] if m_ != "filter"] in (["iter", "enumerate"], ["iter_mut", "enumerate"]) and g["guard"] == "filter-mask" and nbit(g.get("mask_expr")) == mask
         exits = [x for x in walk(lp["body"]) if x.get("k") in ("break", "continue")]
         covered[which] = full and not exits
         rep.ob(R, "validate_buffers/%s-coverage" % which, full and not exits,
